@@ -105,7 +105,6 @@ def reprNErr : NetcodeError → SNErr
   | .ioError => .IoError .opaque
   | .tokenGenerationError e => .TokenGenerationError (reprTGE e)
 
-theorem ioErr_eq (e : IoError) : e = .opaque := by cases e; rfl
 
 /-! ### `ChallengeToken::decode` / `Packet::generate_challenge` -/
 
@@ -763,6 +762,16 @@ abbrev SRP := Src.renetcode.replay_protection.ReplayProtection
 abbrev DecE := SNErr × (List Nat × Option SRP)
 abbrev DecR := List Nat × Option SRP × (Nat × SNcPacket)
 
+/-- outcome of `Packet::decode`: the model's result and replay window; the buffer (decrypted in place) is some state of
+    the same length `L` -/
+def DecOutL (L : Nat) (m : NRes (Nat × Netcode.Packet) × Option RP)
+    (g : Res (SNErr × (List Nat × Option Src.renetcode.replay_protection.ReplayProtection))
+      (List Nat × Option Src.renetcode.replay_protection.ReplayProtection × (Nat × SNcPacket))) : Prop :=
+  match m.1 with
+  | .ok (sq, p) => ∃ buf', buf'.length = L ∧ g = .ok (buf', m.2.map reprRP, (sq, reprNP p))
+  | .err e => ∃ buf', buf'.length = L ∧ g = .err (reprNErr e, (buf', m.2.map reprRP))
+  | .panic _ => ∃ msg, g = .panic msg
+
 /-- outcome of `Packet::decode`: the model's result and replay window; the buffer (decrypted in place) is some state -/
 def DecOut (m : NRes (Nat × Netcode.Packet) × Option RP)
     (g : Res (SNErr × (List Nat × Option Src.renetcode.replay_protection.ReplayProtection))
@@ -771,6 +780,16 @@ def DecOut (m : NRes (Nat × Netcode.Packet) × Option RP)
   | .ok (sq, p) => ∃ buf', g = .ok (buf', m.2.map reprRP, (sq, reprNP p))
   | .err e => ∃ buf', g = .err (reprNErr e, (buf', m.2.map reprRP))
   | .panic _ => ∃ msg, g = .panic msg
+
+theorem DecOutL.weaken {L : Nat} {m : NRes (Nat × Netcode.Packet) × Option RP}
+    {g : Res (SNErr × (List Nat × Option Src.renetcode.replay_protection.ReplayProtection))
+      (List Nat × Option Src.renetcode.replay_protection.ReplayProtection × (Nat × SNcPacket))} (h : DecOutL L m g) : DecOut m g := by
+  unfold DecOutL at h
+  unfold DecOut
+  cases hm : m.1 with
+  | ok v => obtain ⟨sq, p⟩ := v; rw [hm] at h; obtain ⟨b, _, hg⟩ := h; exact ⟨b, hg⟩
+  | err e => rw [hm] at h; obtain ⟨b, _, hg⟩ := h; exact ⟨b, hg⟩
+  | panic x => rw [hm] at h; exact h
 
 theorem from_u8_repr (v : Nat) :
     Src.renetcode.packet.PacketType.from_u8 v = mapRes reprPT reprNErr (Netcode.PacketType.fromU8 v) := by
@@ -841,6 +860,7 @@ theorem read_via_callFrom {ρ σ : Type} (ty : Netcode.PacketType) (src : Bytes)
     cases hg : Src.renetcode.packet.Packet.read (reprPT ty) (toNats src) with
     | ok v => rw [hg] at hr; simp [SameOutcome] at hr
     | err e' =>
+      rw [hg] at hr; simp only [SameOutcome] at hr; subst hr
       simp only [Exec.callFrom, ne_from_io, Res.bind, reprNErr]
     | panic m => rw [hg] at hr; simp [SameOutcome] at hr
   | panic msg =>
@@ -850,10 +870,13 @@ theorem read_via_callFrom {ρ σ : Type} (ty : Netcode.PacketType) (src : Bytes)
     | err e => rw [hg] at hr; simp [SameOutcome] at hr
     | panic m => exact ⟨m, rfl⟩
 
+local macro "dec_done" : tactic =>
+  `(tactic| first | exact ⟨_, rfl⟩ | (refine ⟨_, ?_, rfl⟩; first | (rw [toNats_length]; assumption) | (simp [toNats_length]; done)))
+
 set_option maxRecDepth 10000 in
-theorem packet_decode_eq (a : AEAD) (hl : a.Laws) (buffer : Bytes) (hbl : buffer.length + 16 < 2 ^ 64) (pid : Nat)
+theorem packet_decode_eqL (a : AEAD) (hl : a.Laws) (buffer : Bytes) (hbl : buffer.length + 16 < 2 ^ 64) (pid : Nat)
     (key : Option Bytes) (rp : Option RP) :
-    DecOut (Netcode.Packet.decode a buffer pid key rp)
+    DecOutL buffer.length (Netcode.Packet.decode a buffer pid key rp)
       (@Src.renetcode.packet.Packet.decode (aeadOf a) (toNats buffer) pid (key.map toNats) (rp.map reprRP)) := by
   generalize hM : Netcode.Packet.decode a buffer pid key rp = M
   unfold Src.renetcode.packet.Packet.decode
@@ -863,8 +886,8 @@ theorem packet_decode_eq (a : AEAD) (hl : a.Laws) (buffer : Bytes) (hbl : buffer
     RustSem.len, toNats_length]
   by_cases hsmall : buffer.length < 2 + 16
   · subst hM
-    simp only [Netcode.Packet.decode, h16', hsmall, decide_true, if_true, Exec.bind, Exec.run, DecOut, reprNErr]
-    exact ⟨_, rfl⟩
+    simp only [Netcode.Packet.decode, h16', hsmall, decide_true, if_true, Exec.bind, Exec.run, DecOutL, reprNErr]
+    dec_done
   simp only [hsmall, decide_false, Bool.false_eq_true, if_false, Exec.bind_val']
   cases buffer with
   | nil => simp at hsmall
@@ -875,12 +898,12 @@ theorem packet_decode_eq (a : AEAD) (hl : a.Laws) (buffer : Bytes) (hbl : buffer
     cases hty : Netcode.PacketType.fromU8 (Packet.decodePrefix pfx).1 with
     | err e =>
       subst hM
-      simp only [Netcode.Packet.decode, h16', hsmall, if_false, hty, mapRes, Exec.callFrom, Exec.bind, Exec.run, DecOut]
-      exact ⟨_, rfl⟩
+      simp only [Netcode.Packet.decode, h16', hsmall, if_false, hty, mapRes, Exec.callFrom, Exec.bind, Exec.run, DecOutL]
+      dec_done
     | panic m =>
       subst hM
-      simp only [Netcode.Packet.decode, h16', hsmall, if_false, hty, mapRes, Exec.callFrom, Exec.bind, Exec.run, DecOut]
-      exact ⟨_, rfl⟩
+      simp only [Netcode.Packet.decode, h16', hsmall, if_false, hty, mapRes, Exec.callFrom, Exec.bind, Exec.run, DecOutL]
+      dec_done
     | ok ty =>
       simp only [mapRes, Exec.callFrom_ok, Exec.bind_val']
       have hsl1 : ∀ site, (RustSem.slice (toNats (pfx :: rest)) 1 (pfx :: rest).length site : Exec DecE DecR _)
@@ -899,17 +922,17 @@ theorem packet_decode_eq (a : AEAD) (hl : a.Laws) (buffer : Bytes) (hbl : buffer
         cases hm : Netcode.Packet.read .connectionRequest rest with
         | ok p =>
           simp only [hm] at hr
-          simp only [hr, Exec.bind_val', Exec.run_val, Res.bind_ok, Res.pure_eq, DecOut]
-          exact ⟨_, rfl⟩
+          simp only [hr, Exec.bind_val', Exec.run_val, Res.bind_ok, Res.pure_eq, DecOutL]
+          dec_done
         | err e =>
           simp only [hm] at hr
-          simp only [hr, Exec.bind, Exec.run, Res.bind_err, DecOut]
-          exact ⟨_, rfl⟩
+          simp only [hr, Exec.bind, Exec.run, Res.bind_err, DecOutL]
+          dec_done
         | panic msg =>
           simp only [hm] at hr
           obtain ⟨m, hr⟩ := hr
-          simp only [hr, Exec.bind, Exec.run, Res.bind_panic, DecOut]
-          exact ⟨_, rfl⟩
+          simp only [hr, Exec.bind, Exec.run, Res.bind_panic, DecOutL]
+          dec_done
       · split
         · rename_i heq
           cases ty <;> first | exact absurd rfl hcr | (simp [reprPT] at heq)
@@ -917,8 +940,8 @@ theorem packet_decode_eq (a : AEAD) (hl : a.Laws) (buffer : Bytes) (hbl : buffer
         cases key with
         | none =>
           subst hM
-          simp only [Option.map_none, Netcode.Packet.decode, h16', hsmall, hty, hcr, if_false, Exec.run, DecOut, reprNErr]
-          exact ⟨_, rfl⟩
+          simp only [Option.map_none, Netcode.Packet.decode, h16', hsmall, hty, hcr, if_false, Exec.run, DecOutL, reprNErr]
+          dec_done
         | some k =>
           have hsuf : rest <:+ pfx :: rest := List.suffix_cons pfx rest
           have hsp : (RustSem.ReadCursor.set_position (RustSem.ReadCursor.new (toNats (pfx :: rest))) 1 : Res DecE _)
@@ -929,8 +952,8 @@ theorem packet_decode_eq (a : AEAD) (hl : a.Laws) (buffer : Bytes) (hbl : buffer
           | none =>
             subst hM
             simp only [rdResE, Exec.callFrom, ne_from_io, Res.bind, Exec.bind, Exec.run, Netcode.Packet.decode, h16',
-              hsmall, hty, hcr, if_false, hrs, DecOut, reprNErr]
-            exact ⟨_, rfl⟩
+              hsmall, hty, hcr, if_false, hrs, DecOutL, reprNErr]
+            dec_done
           | some sb =>
             obtain ⟨sq, body⟩ := sb
             obtain ⟨hsl8, hslr, hbody, hsq⟩ := readSequence_ok hrs
@@ -943,8 +966,8 @@ theorem packet_decode_eq (a : AEAD) (hl : a.Laws) (buffer : Bytes) (hbl : buffer
             by_cases hsm2 : (pfx :: rest).length < 1 + (Packet.decodePrefix pfx).2 + 16
             · subst hM
               simp only [hsm2, decide_true, if_true, Exec.bind, Exec.run, Netcode.Packet.decode, h16', hsmall, hty, hcr,
-                if_false, hrs, DecOut, reprNErr]
-              exact ⟨_, rfl⟩
+                if_false, hrs, DecOutL, reprNErr]
+              dec_done
             simp only [hsm2, decide_false, Bool.false_eq_true, if_false, Exec.bind_val']
             by_cases hdup : dupOf ty sq rp = true
             · cases rp with
@@ -954,8 +977,8 @@ theorem packet_decode_eq (a : AEAD) (hl : a.Laws) (buffer : Bytes) (hbl : buffer
                 subst hM
                 simp only [Option.map_some, apply_replay_protection_eq, absPT_reprPT, Exec.call_ok, Exec.bind_val', hdup.1,
                   if_true, already_received_eq w sq hsq, hdup.2, Exec.bind, Exec.run, Netcode.Packet.decode, h16', hsmall,
-                  hty, hcr, if_false, hrs, hsm2, Bool.and_self, DecOut, reprNErr]
-                exact ⟨_, rfl⟩
+                  hty, hcr, if_false, hrs, hsm2, Bool.and_self, DecOutL, reprNErr]
+                dec_done
             rw [Exec.bind_skip _ _ () ?hx]
             case hx =>
               cases rp with
@@ -989,13 +1012,13 @@ theorem packet_decode_eq (a : AEAD) (hl : a.Laws) (buffer : Bytes) (hbl : buffer
               subst hM
               have hd0 : dupOf ty sq rp = false := by simpa using hdup
               simp only [Exec.callFrom, ne_from_crypto, Res.bind, Exec.bind, Exec.run, Netcode.Packet.decode, h16', hsmall,
-                hty, hcr, if_false, hrs, hsm2, Packet.openBody, hb16, ho, DecOut, reprNErr]
+                hty, hcr, if_false, hrs, hsm2, Packet.openBody, hb16, ho, DecOutL, reprNErr]
               cases rp with
-              | none => exact ⟨_, rfl⟩
+              | none => exact ⟨_, by simp only [toNats_length, List.length_append, List.length_take]; simp only [List.length_cons] at hblen hsm2 ⊢; omega, rfl⟩
               | some w =>
                 simp only [dupOf] at hd0
                 simp only [hd0, Bool.false_eq_true, if_false]
-                exact ⟨_, rfl⟩
+                exact ⟨_, by simp only [toNats_length, List.length_append, List.length_take]; simp only [List.length_cons] at hblen hsm2 ⊢; omega, rfl⟩
             | some plain =>
               have hpl : plain.length + 16 = body.length := hl.open_length _ _ _ _ _ ho
               have hdrop : body.length - 16 = plain.length := by omega
@@ -1061,17 +1084,23 @@ theorem packet_decode_eq (a : AEAD) (hl : a.Laws) (buffer : Bytes) (hbl : buffer
               cases hm : Netcode.Packet.read ty plain with
               | ok p2 =>
                 simp only [hm] at hr
-                simp only [hr, Exec.bind_val', Exec.run_val, Res.bind_ok, Res.pure_eq, DecOut]
-                exact ⟨_, rfl⟩
+                simp only [hr, Exec.bind_val', Exec.run_val, Res.bind_ok, Res.pure_eq, DecOutL]
+                dec_done
               | err e =>
                 simp only [hm] at hr
-                simp only [hr, Exec.bind, Exec.run, Res.bind_err, DecOut]
-                exact ⟨_, rfl⟩
+                simp only [hr, Exec.bind, Exec.run, Res.bind_err, DecOutL]
+                dec_done
               | panic msg =>
                 simp only [hm] at hr
                 obtain ⟨m, hr⟩ := hr
-                simp only [hr, Exec.bind, Exec.run, Res.bind_panic, DecOut]
-                exact ⟨_, rfl⟩
+                simp only [hr, Exec.bind, Exec.run, Res.bind_panic, DecOutL]
+                dec_done
+
+theorem packet_decode_eq (a : AEAD) (hl : a.Laws) (buffer : Bytes) (hbl : buffer.length + 16 < 2 ^ 64) (pid : Nat)
+    (key : Option Bytes) (rp : Option RP) :
+    DecOut (Netcode.Packet.decode a buffer pid key rp)
+      (@Src.renetcode.packet.Packet.decode (aeadOf a) (toNats buffer) pid (key.map toNats) (rp.map reprRP)) :=
+  (packet_decode_eqL a hl buffer hbl pid key rp).weaken
 
 end NcCodec
 end RenetVerif.SrcEquiv
